@@ -13,8 +13,9 @@ from .fst import Fst, Dfa, FstError, regex_dfa
 class Val:
     """string value as a function of the input string: transducer T (or a constant)"""
 
-    def __init__(self, T=None, const=None):
+    def __init__(self, T=None, const=None, first_of=None):
         self.T, self.const = T, const
+        self.first_of = first_of          # transducer whose output's FIRST CHARACTER this value is (e.g. `quote = name[0]`)
 
 
 def path_of(e):
@@ -133,6 +134,24 @@ class Extractor:
             if isinstance(f, ast.Attribute):
                 base = self.eval(f.value)
                 args = [self.const_of(a) for a in e.args]
+                if f.attr in ('strip', 'lstrip', 'rstrip') and len(e.args) == 1 and args[0] is None and base.T is not None:
+                    q = self.eval(e.args[0])
+                    if q.first_of is not None:
+                        # strip(<first character of a tracked value>): one case per character that value can start with
+                        R = None
+                        for c in self.A:
+                            dom = q.first_of.then(Fst.restrict(self.A, Dfa.literal(self.A, c).concat(Dfa.star_any(self.A)))).domain()
+                            if dom.is_empty():
+                                continue
+                            t = base.T.on_domain(dom)
+                            if f.attr in ('strip', 'lstrip'):
+                                t = t.then(Fst.lstrip(self.A, c))
+                            if f.attr in ('strip', 'rstrip'):
+                                t = t.then(Fst.rstrip(self.A, c))
+                            R = t if R is None else R.union(t)
+                        if R is None:
+                            raise FstError('strip of a value with empty domain')
+                        return Val(R)
                 if f.attr == 'format' and base.const is not None and len(e.args) == 1 and base.const.count('{}') == 1:
                     pre, suf = base.const.split('{}')
                     return self.wrap(self.eval(e.args[0]), pre, suf)
@@ -152,6 +171,13 @@ class Extractor:
                     return Val(base.T.then(Fst.rstrip(self.A, args[0])))
                 raise FstError(f'string method {f.attr}')
             raise FstError('call')
+        if isinstance(e, ast.Subscript) and isinstance(e.slice, ast.Constant) and e.slice.value == 0:
+            x = self.eval(e.value)
+            if x.T is not None:
+                return Val(first_of=x.T)
+            if isinstance(x.const, str) and x.const:
+                return Val(const=x.const[0])
+            raise FstError('first character of an untracked value')
         if isinstance(e, ast.Subscript) and isinstance(e.slice, ast.Slice) and e.slice.step is None:
             x = self.eval(e.value)
             if x.T is None:
@@ -231,12 +257,32 @@ class Extractor:
                     raise FstError('test on untracked value')
                 starts = Dfa.literal(self.A, c).concat(Dfa.star_any(self.A))
                 return x.T.then(Fst.restrict(self.A, starts)).domain()
+        if isinstance(test, ast.Compare) and len(test.ops) == 1 and isinstance(test.ops[0], (ast.Eq, ast.In)):
+            try:
+                lv = self.eval(test.left)
+            except FstError:
+                lv = None
+            if lv is not None and lv.first_of is not None:
+                lit = self.literal_of(test.comparators[0])
+                chars = None
+                if isinstance(test.ops[0], ast.Eq) and isinstance(lit, str) and len(lit) == 1:
+                    chars = [lit]
+                elif isinstance(test.ops[0], ast.In) and isinstance(lit, (str, tuple, list)) and all(isinstance(c, str) and len(c) == 1 for c in lit):
+                    chars = list(lit)
+                if chars is not None:
+                    dom = None
+                    for c in chars:
+                        if c not in self.A:
+                            continue
+                        d_ = lv.first_of.then(Fst.restrict(self.A, Dfa.literal(self.A, c).concat(Dfa.star_any(self.A)))).domain()
+                        dom = d_ if dom is None else dom.union(d_)
+                    return dom if dom is not None else Dfa(self.A, [{}], 0, set())
         raise FstError(f'test {ast.unparse(test)[:60]}')
 
     def restricted(self, dom):
         ex = Extractor(self.A, {}, self.funcs, self.consts, self.static, self.depth)
         for k, v in self.env.items():
-            ex.env[k] = Val(v.T.on_domain(dom)) if v.T is not None else v
+            ex.env[k] = Val(v.T.on_domain(dom)) if v.T is not None else (Val(first_of=v.first_of.on_domain(dom)) if getattr(v, 'first_of', None) is not None else v)
         ex.paths = self.paths
         return ex
 
